@@ -177,6 +177,10 @@ package controller
 // The C15 check claims nothing about panics during start-up (C09 covers the regulation loop), and the
 // regulation-only preconditions (map invariant, data ranges) are not part of the contracts in this mode.
 //@ mode C15 nosafety
+//@ mode C16 nosafety
+// C16: every analysis write (PWM sweep, RPM-curve measurement) happens with the initialisation mutex held
+// unless parallel initialisation is enabled, and a whole initialisation sequence is one critical section.
+//@ pure serialised() bool = configuration.CurrentConfig.RunFanInitializationInParallel || addrof(InitializationSequenceMutex) in held
 //@ ghost var initRuns int
 //@ pure cfgMap(fan fans.Fan) *map[int]int = fan is *fans.HwMonFan ? fan.(*fans.HwMonFan).Config.PwmMap : (fan is *fans.FileFan ? fan.(*fans.FileFan).Config.PwmMap : fan.(*fans.CmdFan).Config.PwmMap)
 
@@ -185,29 +189,50 @@ package controller
 //@   trusted "printing has no effect on program state"
 
 //@ func (*DefaultFanController).computePwmMapAutomatically
+//@   props C16
 //@   safety none
 //@   requires f != nil && fans.fanWF(f.fan)
+//@   requires[C16.sweep C16] serialised()
+//@   ensures held == old(held) && unlocks == old(unlocks)
 //@   ensures f.pwmMap != nil
 //@   modifies f.pwmMap, pwmWrites, lastPwm, lastPwmErr, modeWrites, lastMode, modeVerified, fileInt, procWorld, started, lastReadFailed, supportsResult, f.fan.(*fans.HwMonFan).Pwm, f.fan.(*fans.FileFan).Pwm, f.fan.(*fans.CmdFan).Pwm
 //@   loop 1 "for i := fans.MaxPwmValue; i >= fans.MinPwmValue; i--"
 //@     invariant pwmMap != nil && fresh(pwmMap) && fans.fanWF(f.fan) && f.fan == old(f.fan)
 
-//@ func (*DefaultFanController).computePwmMap
-//@   props C15
+//@ func (*DefaultFanController).doComputePwmMap
+//@   props C15 C16
 //@   safety none
 //@   requires f != nil && fans.fanWF(f.fan) && f.persistence != nil && persistence.dbWF()
+//@   requires[C16.sweep C16] serialised()
 //@   ensures[C15.config] old(cfgMap(f.fan)) != nil ==> err == nil && ref(f.pwmMap) == old(ref(*cfgMap(f.fan))) && pwmWrites == old(pwmWrites) && modeWrites == old(modeWrites)
 //@   ensures[C15.stored] old(cfgMap(f.fan)) == nil && mapLoadOK[old(mapLoadCount)] && mapLoadRes[old(mapLoadCount)] != 0 ==> err == nil && ref(f.pwmMap) == mapLoadRes[old(mapLoadCount)] && pwmWrites == old(pwmWrites) && modeWrites == old(modeWrites)
 //@   ensures f.fan == old(f.fan) && f.persistence == old(f.persistence) && persistence.dbWF() && initRuns == old(initRuns)
 //@   modifies f.pwmMap, each(map[int]int)[_], pwmWrites, lastPwm, lastPwmErr, modeWrites, lastMode, modeVerified, fileInt, procWorld, started, lastReadFailed, supportsResult, f.fan.(*fans.HwMonFan).Pwm, f.fan.(*fans.FileFan).Pwm, f.fan.(*fans.CmdFan).Pwm
 //@   modifies dbBucket, dbHas, dbVal, txBucket, txHas, txVal, decodeFailed, mapLoadCount, mapLoadOK, mapLoadRes
 
+//@ func (*DefaultFanController).computePwmMap
+//@   props C15 C16
+//@   safety none
+//@   requires f != nil && fans.fanWF(f.fan) && f.persistence != nil && persistence.dbWF()
+//@   requires[C16.entry C16] !(addrof(InitializationSequenceMutex) in held)
+//@   ensures[C16.balance C16] held == old(held) && unlocks <= old(unlocks) + 1 && unlocks >= old(unlocks)
+//@   ensures[C15.config] old(cfgMap(f.fan)) != nil ==> err == nil && ref(f.pwmMap) == old(ref(*cfgMap(f.fan))) && pwmWrites == old(pwmWrites) && modeWrites == old(modeWrites)
+//@   ensures[C15.stored] old(cfgMap(f.fan)) == nil && mapLoadOK[old(mapLoadCount)] && mapLoadRes[old(mapLoadCount)] != 0 ==> err == nil && ref(f.pwmMap) == mapLoadRes[old(mapLoadCount)] && pwmWrites == old(pwmWrites) && modeWrites == old(modeWrites)
+//@   ensures f.fan == old(f.fan) && f.persistence == old(f.persistence) && persistence.dbWF() && initRuns == old(initRuns)
+//@   modifies f.pwmMap, each(map[int]int)[_], pwmWrites, lastPwm, lastPwmErr, modeWrites, lastMode, modeVerified, fileInt, procWorld, started, lastReadFailed, supportsResult, f.fan.(*fans.HwMonFan).Pwm, f.fan.(*fans.FileFan).Pwm, f.fan.(*fans.CmdFan).Pwm
+//@   modifies dbBucket, dbHas, dbVal, txBucket, txHas, txVal, decodeFailed, mapLoadCount, mapLoadOK, mapLoadRes, held, unlocks
+
 //@ opaque func (*DefaultFanController).waitForFanToSettle
 //@   modifies fan.(*fans.FileFan).Rpm, fan.(*fans.CmdFan).Rpm, procWorld, started, lastReadFailed, lastRpmRead
 //@   trusted "polls the RPM input until ten consecutive differences are small; body not verified (rolling-window library), termination not claimed"
 
 //@ func (*DefaultFanController).RunInitializationSequence
-//@   props C15
+//@   props C15 C16
+//@   requires[C16.entry C16] !(addrof(InitializationSequenceMutex) in held)
+//@   atcall[C16.measure] setPwm: serialised()
+//@   atcall[C16.mode] trySetManualPwm: serialised()
+//@   ensures[C16.section] !configuration.CurrentConfig.RunFanInitializationInParallel && pwmWrites != old(pwmWrites) ==> unlocks == old(unlocks) + 1
+//@   ensures[C16.released] !(addrof(InitializationSequenceMutex) in held)
 //@   dispatchonly C15 C16
 //@   safety none
 //@   ghostdo initRuns := initRuns + 1
@@ -228,7 +253,8 @@ package controller
 //@   trusted "runs all registered actors until the first returns, interrupts the others and waits for all of them; regulation happens in here"
 
 //@ func (*DefaultFanController).Run
-//@   props C15
+//@   props C15 C16
+//@   requires[C16.entry C16] !(addrof(InitializationSequenceMutex) in held)
 //@   dispatchonly C15 C16
 //@   safety none
 //@   requires f != nil && fans.fanWF(f.fan) && f.persistence != nil && persistence.dbWF() && ctx != nil && ref(fans.dataPtr(f.fan)) < W
